@@ -439,6 +439,9 @@ func (fr *Frame) applyContract(ct *FuncContract, fn *ssa.Function, sig *types.Si
 		if ct.Flags["deterministic"] && !ct.Flags["reveal"] && !ct.Flags["trusted"] {
 			break // callers see a deterministic in-module function only as an uninterpreted function of its arguments
 		}
+		if strings.Contains(c.Src, "at(\"") {
+			continue // speaks about a program point inside the callee: checked there, meaningless to the caller
+		}
 		g, err := penv.evalBool(c.Expr)
 		if err != nil {
 			fx.unsupported = append(fx.unsupported, fmt.Sprintf("postcondition %q of %s: %v", c.Src, name, err))
@@ -532,7 +535,7 @@ func (fr *Frame) applyEffects(ct *FuncContract, fn *ssa.Function, sig *types.Sig
 		st.wm = w
 		return
 	}
-	if ct.HasMod && !ct.Flags["perwrite"] {
+	if ct.HasMod {
 		if fx.perWrite() {
 			for i, m := range ct.Modifies {
 				err := fr.modTargets(env, m, func(key string, ref Term) {
@@ -697,6 +700,20 @@ func (fx *FnExec) wellFormedLater(st *State, v Term, t types.Type) { fx.wellForm
 // opaqueCall havocs the heap according to the inferred mod-set of the callee.
 func (fr *Frame) opaqueCall(name string, fn *ssa.Function, args []Val, sig *types.Signature, st *State, dynamic bool) {
 	keys, any := fr.fx.eng.calleeModSet(fn, sig, dynamic)
+	if fx := fr.fx; fx.perWrite() {
+		// a function whose writes are justified one by one cannot call code whose effects are unknown
+		bad := any
+		for k := range keys {
+			if !strings.HasPrefix(k, "Local.") && !fx.allowedWhole[k] {
+				bad = true
+			}
+		}
+		if bad {
+			if o := fx.oblige(st.clone(), "frame", "opaque-call:"+lastSeg(name), False, token.NoPos); o != nil {
+				o.Detail = "the callee has no contract and may write memory that exists already"
+			}
+		}
+	}
 	fr.havocKeys(name, keys, any, st)
 	if !any {
 		// locations passed by address may be written by the callee
@@ -812,6 +829,19 @@ func (fr *Frame) builtin(b *ssa.Builtin, c *ssa.CallCommon, instr *ssa.Call, st 
 		key := elemKey(es)
 		arr := fx.heapGet(st, key, ArraySort(SInt, inner))
 		fx.frameWrite(st, SlBase(d), key, pos, fr)
+		if _, isSl := c.Args[1].Type().Underlying().(*types.Slice); isSl && !isStruct(dt.Elem()) {
+			// exact model: n = min(len(dst), len(src)) elements move (memmove semantics: the source is read first)
+			src := fx.materialize(args[1], c.Args[1].Type())
+			n := fx.ctx.Define("copy.n", Ite(Lt(SlLen(d), SlLen(src)), SlLen(d), SlLen(src)))
+			dArr := Select(arr, SlBase(d), inner)
+			sArr := Select(arr, SlBase(src), inner)
+			na := fx.ctx.Fresh("copy.new", inner)
+			qi := smtIdent(fmt.Sprintf("q!j!%d", fx.ctx.nfresh))
+			fx.ctx.Assert(Term{fmt.Sprintf("(forall ((%s Int)) (= (select %s %s) (ite (and (<= %s %s) (< %s (+ %s %s))) (select %s (+ %s (- %s %s))) (select %s %s))))",
+				qi, na.S, qi, SlOff(d).S, qi, qi, SlOff(d).S, n.S, sArr.S, SlOff(src).S, qi, SlOff(d).S, dArr.S, qi), SBool})
+			fx.heapSet(st, key, Store(arr, SlBase(d), na))
+			return tv(n)
+		}
 		fx.heapSet(st, key, Store(arr, SlBase(d), fx.ctx.Fresh("copy", inner)))
 		fx.note("builtin copy: destination elements havoced")
 		r := fx.ctx.Fresh("copied", SInt)
@@ -850,6 +880,9 @@ func (fr *Frame) builtin(b *ssa.Builtin, c *ssa.CallCommon, instr *ssa.Call, st 
 }
 
 func (fx *FnExec) frameWriteGuarded(st *State, ref Term, key string, guard Term, pos token.Pos, fr *Frame) {
+	if strings.HasPrefix(key, "Local.") {
+		return
+	}
 	if fx.perWrite() {
 		label := "fresh-write"
 		if fr != nil && fr.site != "" {
